@@ -288,6 +288,13 @@ def compare(ctx, prop, cases, impl, model, nontrivial=None, shrink=None):
         if im is None:          # the harness could not observe this case (e.g. uncommitted memory)
             skipped += 1
             continue
+        # "A ||| B": the model / the specification allow either outcome on this case (e.g. an adversary that rewrites a cell
+        # before a second read of it: the outcome for the value read first, or for the rewritten value when the code
+        # consistently uses a later read; anything else mixes two reads)
+        if " ||| " in mo or " ||| " in sp:
+            moa, spa = mo.split(" ||| "), sp.split(" ||| ")
+            mo = im if im in moa else moa[0]
+            sp = im if im in spa else spa[0]
         op = case.split(" ", 1)[0]
         hist[op + "|" + cls] = hist.get(op + "|" + cls, 0) + 1
         if nontrivial is None or nontrivial(case, mo, cls):
